@@ -1325,3 +1325,175 @@ Proof.
   rewrite (json_refines F encdb decdb H2), (dbm_refines E enc dec H1), (sqlite_refines E enc dec H1).
   unfold ops. rewrite spec_in_last, last_last. auto.
 Qed.
+
+(* the invariants of the serial runner (Proofs/RunnerP.v) are needed from here on *)
+From DoitV Require Import DispatchP DispatchInv RunnerTr RunnerP.
+
+(* ===================================================================================================== *)
+(* (a) continued: the interrupted task was not reported -- and not removed -- before its execution started  *)
+(* ===================================================================================================== *)
+Section InterruptFresh.
+Variable tasks : name -> option task.
+Variable wake_rank : name -> name -> N.
+Variable calc_rank : name -> N.
+Variable continue_ always : bool.
+
+Notation get_task := (get_task tasks).
+Notation node_of := (node_of tasks).
+Notation st_of := (st_of tasks).
+Notation select_task := (select_task tasks continue_ always).
+Notation process_result := (process_result tasks continue_).
+Notation start_task := (start_task tasks).
+Notation serial := (serial tasks wake_rank calc_rank continue_ always).
+Notation RI := (RI tasks).
+Notation XI := (XI tasks).
+Notation Pre := (Pre tasks).
+Notation fordered := (fordered tasks).
+Notation cordered := (cordered tasks).
+
+(* every remove_success in the trace belongs to a failure report of the same task *)
+Definition paired (tr : list event) : Prop := forall j, In (ERemove j) tr -> finished_in tr j.
+
+Lemma paired_app tr l : paired tr -> (forall j, In (ERemove j) l -> existsb (is_final_ev j) l = true) -> paired (tr ++ l).
+Proof.
+  intros P H j Hin. apply in_app_or in Hin. destruct Hin as [Hin|Hin].
+  - apply finished_in_app. apply P. exact Hin.
+  - apply finished_in_app_r. apply H. exact Hin.
+Qed.
+
+Ltac removes_paired :=
+  let j := fresh "j" in let Hin := fresh "Hin" in
+  intros j Hin; simpl in Hin;
+  repeat (destruct Hin as [Hin|Hin];
+          [try discriminate; inversion Hin; subst; simpl; rewrite ?N.eqb_refl, ?orb_true_r; reflexivity|]);
+  contradiction.
+
+Lemma select_task_removes r k b r1 :
+  select_task r k = (b, r1) ->
+  exists l, r_tr r1 = r_tr r ++ l /\ forall j, In (ERemove j) l -> existsb (is_final_ev j) l = true.
+Proof.
+  unfold Runner.select_task, get_args, Runner.handle_error, Runner.handle_error_gen, emit, with_d. intro H.
+  repeat match type of H with
+         | context [if ?c then _ else _] => destruct c
+         | context [match ?x with _ => _ end] => destruct x
+         end;
+    inversion H; subst; clear H; cbn [r_tr r_td r_d];
+    eexists; (split; [rewrite <- ?app_assoc; try reflexivity; rewrite app_nil_r; reflexivity |]);
+    removes_paired.
+Qed.
+
+Lemma process_result_removes r k :
+  exists l, r_tr (process_result r k) = r_tr r ++ l /\ forall j, In (ERemove j) l -> existsb (is_final_ev j) l = true.
+Proof.
+  unfold Runner.process_result, Runner.handle_error, Runner.handle_error_gen, emit, with_d.
+  destruct (t_outcome (get_task k)); cbn [r_tr];
+    eexists; (split; [try reflexivity; rewrite app_nil_r; reflexivity|]); removes_paired.
+Qed.
+
+Lemma serial_interrupt_fresh fuel : forall r last,
+  RI (r_d r) (r_tr r) -> XI (r_d r) (r_tr r) -> fordered (r_tr r) -> cordered (r_tr r) -> Pre (r_d r) ->
+  (forall k, last = Some k -> st_of (r_d r) k <> SNone) -> paired (r_tr r) ->
+  forall r' k0, serial fuel r last = (r', StopInterrupt k0) ->
+  exists pre, r_tr r' = pre ++ [EExecute k0] ++ EClose :: map ETeardown (rev (r_td r')) /\
+              paired pre /\ ~ finished_in pre k0.
+Proof.
+  induction fuel as [|fuel IH]; intros r last HR HX HF HC HP Hl HQ r' k0 H; cbn [Runner.serial] in H.
+  { discriminate. }
+  destruct (r_stop r). { discriminate. }
+  destruct (disp_send tasks wake_rank calc_rank (S fuel) (r_d r) last) as [y d] eqn:Ed.
+  pose proof (disp_send_spec tasks wake_rank calc_rank _ _ _ _ _ (ri_inv _ _ _ HR) HP (ri_res _ _ _ HR) (ri_q _ _ _ HR) Hl Ed) as Hpost.
+  pose proof (RI_disp _ _ _ _ _ HR Hpost) as HR'.
+  assert (HX' : XI d (r_tr r)).
+  { eapply XI_pc; [exact HX|]. destruct Hpost as (_ & _ & _ & _ & _ & Sp & _). exact Sp. }
+  destruct y as [k| | |path|]; try discriminate.
+  destruct (handed_of_post _ _ _ _ Hpost) as (HK & Hcur & Hns).
+  destruct (select_task (with_d r d) k) as [b r1] eqn:Es.
+  pose proof (select_task_post _ _ _ (with_d r d) k b r1 HR' HK Es) as (R1 & P1 & S1 & Pc1 & C1 & D1 & T1 & O1).
+  pose proof (select_task_execs tasks continue_ always _ _ _ _ Es) as Ex1. simpl in Ex1.
+  assert (X1 : XI (r_d r1) (r_tr r1)).
+  { destruct HX' as [xa xb]. split; rewrite Ex1; auto. intros z Hz. eapply spent_pc; [apply Pc1|]. apply xa. exact Hz. }
+  assert (Hd12 : forall x, In x (deps12 tasks k) -> finished_in (r_tr r) x).
+  { intros x Hx. apply (ri_link _ _ _ HR'). eapply handed_static_final; eauto. apply (ri_static _ _ _ HR'). }
+  assert (F1 : fordered (r_tr r1)).
+  { destruct (select_task_about tasks continue_ always _ _ _ _ Es) as [evs [Eq Ha]]. simpl in Eq. rewrite Eq.
+    eapply fordered_app_about; eauto. }
+  assert (C1' : cordered (r_tr r1)).
+  { destruct (select_task_about tasks continue_ always _ _ _ _ Es) as [evs [Eq Ha]]. simpl in Eq. rewrite Eq.
+    apply cordered_app_noexec; auto. eapply about_noexec; eauto. }
+  assert (Q1 : paired (r_tr r1)).
+  { destruct (select_task_removes _ _ _ _ Es) as (l & El & Hl1). simpl in El. rewrite El. apply paired_app; auto. }
+  destruct b.
+  - assert (R2 : RI (r_d (start_task r1 k)) (r_tr (start_task r1 k))) by (apply start_task_RI; auto).
+    assert (C2 : cordered (r_tr (start_task r1 k))).
+    { unfold Runner.start_task. simpl. constructor; auto. intros t Et x Hx. inversion Et; subst.
+      apply (select_true_good _ _ _ (with_d r d) t r1 HR' HK Es x Hx). }
+    assert (F2 : fordered (r_tr (start_task r1 k))).
+    { unfold Runner.start_task. simpl. apply fordered_app_nofinal; auto. intros e k1 [<-|[]]. reflexivity. }
+    assert (Hk : ~ In k (execs (r_tr r))) by (intro Hx; apply Hns; apply (xi_spent _ _ _ HX); exact Hx).
+    assert (X2 : XI (r_d (start_task r1 k)) (r_tr (start_task r1 k))).
+    { unfold Runner.start_task. simpl. destruct X1 as [xa xb]. split; rewrite execs_app; simpl.
+      - intros z Hz. apply in_app_iff in Hz. destruct Hz as [Hz|[<-|[]]]; auto.
+        apply (select_true_spent _ _ _ (with_d r d) k r1 HR' HK Es).
+      - rewrite Ex1 in *. apply NoDup_snoc; auto. }
+    destruct (is_interrupt tasks k) eqn:Ei.
+    + cbv zeta in H. inversion H; subst. exists (r_tr r1). split; [|split; [exact Q1|]].
+      * unfold finish, emit, Runner.start_task. simpl. rewrite <- app_assoc. reflexivity.
+      * intro Hf. pose proof (ri_link2 _ _ _ R1 _ Hf) as Hfin. unfold DispatchInv.final in Hfin.
+        destruct (T1 eq_refl) as [Hrun _]. rewrite Hrun in Hfin. discriminate.
+    + cbv zeta in H.
+      assert (He2 : early (n_pc (node_of (r_d (start_task r1 k)) k)) = false).
+      { unfold Runner.start_task. simpl. rewrite Pc1. apply (handed_early _ _ _ HK). }
+      assert (HPx2 : PreX tasks (r_d (start_task r1 k)) k).
+      { unfold Runner.start_task. simpl. intros z Hz Hpc. apply P1. exact Hpc. }
+      assert (Hns2 : in_setup (n_pc (node_of (r_d (start_task r1 k)) k)) = false).
+      { unfold Runner.start_task. simpl. rewrite Pc1. apply (handed_in_setup _ _ _ HK). }
+      assert (Hst2 : st_of (r_d (start_task r1 k)) k = SRun) by (unfold Runner.start_task; simpl; apply (T1 eq_refl)).
+      destruct (process_result_post _ continue_ (start_task r1 k) k R2 He2 HPx2 Hns2 Hst2) as [(R3 & P3 & S3)|Hint].
+      * eapply IH; [| | | | | | |exact H]; auto.
+        -- destruct X2 as [xa xb]. split; rewrite process_result_execs; auto.
+           intros z Hz. eapply spent_pc; [apply process_result_pc|]. apply xa. exact Hz.
+        -- destruct (process_result_about tasks continue_ (start_task r1 k) k) as [evs [Eq Ha]]. rewrite Eq.
+           eapply fordered_app_about; eauto. intros x Hx. unfold Runner.start_task. simpl.
+           apply finished_in_app. apply D1; auto. unfold static_deps. unfold deps12 in Hx.
+           rewrite app_assoc. apply in_app_iff. left. exact Hx.
+        -- destruct (process_result_about tasks continue_ (start_task r1 k) k) as [evs [Eq Ha]]. rewrite Eq.
+           apply cordered_app_noexec; auto. eapply about_noexec; eauto.
+        -- intros k' E. inversion E; subst. exact S3.
+        -- destruct (process_result_removes (start_task r1 k) k) as (l & El & Hl1). rewrite El. apply paired_app; auto.
+           unfold Runner.start_task. simpl. apply paired_app; auto. intros j [Hj|[]]. discriminate.
+      * unfold Runner.is_interrupt in Ei. rewrite Hint in Ei. discriminate.
+  - eapply IH; [| | | | | | |exact H]; auto. intros k' E. inversion E; subst. exact S1.
+Qed.
+
+Theorem interrupt_not_removed fuel selected r k :
+  serial fuel (r_init selected) None = (r, StopInterrupt k) ->
+  ~ In (ERemove k) (r_tr r) /\ ~ In (ESave k) (r_tr r) /\ (forall kd, ~ In (EFailure k kd) (r_tr r)).
+Proof.
+  intro H. destruct (interrupt_no_save _ _ _ _ _ _ _ _ _ H) as [N1 _].
+  apply serial_interrupt_fresh in H.
+  - destruct H as (pre & E & Q & Hf).
+    assert (Hsuf : forall e, In e (r_tr r) -> In e pre \/ e = EExecute k \/ e = EClose \/ exists t, e = ETeardown t).
+    { intros e Hin. rewrite E in Hin. apply in_app_or in Hin. destruct Hin as [Hin|Hin]; auto.
+      simpl in Hin. destruct Hin as [Hin|[Hin|Hin]]; auto. apply in_map_iff in Hin. destruct Hin as (t & <- & _). eauto. }
+    split; [|split; [exact N1|]].
+    + intro Hin. apply Hsuf in Hin. destruct Hin as [Hin|[Hin|[Hin|[t Hin]]]]; try discriminate. apply Hf. apply Q. exact Hin.
+    + intros kd Hin. apply Hsuf in Hin. destruct Hin as [Hin|[Hin|[Hin|[t Hin]]]]; try discriminate.
+      apply Hf. apply finished_in_In. exists (EFailure k kd). split; auto. simpl. apply N.eqb_refl.
+  - apply RI_init.
+  - apply XI_init.
+  - constructor.
+  - constructor.
+  - intros z Hz. simpl in Hz. discriminate.
+  - intros k' E'. discriminate.
+  - intros j [].
+Qed.
+End InterruptFresh.
+
+(* hence the record of the interrupted task is, key by key, the record found before the run *)
+Theorem interrupt_record_untouched tasks wr cr cont alw fuel selected r k (recd : name -> list (N * Z)) (m : spec) :
+  serial tasks wr cr cont alw fuel (r_init selected) None = (r, StopInterrupt k) ->
+  session_db recd m (r_tr r) k = m k.
+Proof.
+  intro H. destruct (interrupt_not_removed _ _ _ _ _ _ _ _ _ H) as (A & B & _).
+  unfold session_db. apply db_ops_untouched; assumption.
+Qed.
